@@ -364,7 +364,7 @@ def enumerate_jobs(tier, seed):
 
     # -- merging
     J.append(dict(pipe="merge", name="merge:CFFFont1+2", fids=["ttx:merge/data/CFFFont1.ttx", "ttx:merge/data/CFFFont2.ttx"], cost=300000))
-    tt = [e for e in fonts if "glyf" in e["tables"] and not e["variable"] and e["size"] < 60000 and "/aots/" not in e["id"] and "#" not in e["id"] and e["flavor"] is None]
+    tt = [e for e in fonts if "glyf" in e["tables"] and not e["variable"] and e["size"] < 60000 and "/aots/" not in e["id"] and "#" not in e["id"] and e.get("flavor") is None and e["id"].startswith("bin:")]
     by_upem = {}
     for e in tt:
         by_upem.setdefault(e["upem"], []).append(e["id"])
